@@ -144,7 +144,7 @@ impl DynColl for M {
 		}
 	}
 	fn fmt_debug(&self) -> String {
-		format!("{:?}", self)
+		crate::view::dbg_string(self)
 	}
 }
 
@@ -178,7 +178,7 @@ impl DynColl for R {
 		}
 	}
 	fn fmt_debug(&self) -> String {
-		format!("{:?}", self)
+		crate::view::dbg_string(self)
 	}
 }
 
@@ -229,7 +229,7 @@ macro_rules! impl_coll {
 				}
 			}
 			fn fmt_debug(&self) -> String {
-				format!("{:?}", self)
+				crate::view::dbg_string(self)
 			}
 		}
 	};
@@ -296,7 +296,7 @@ impl DynColl for Poisonable<M> {
 		}
 	}
 	fn fmt_debug(&self) -> String {
-		format!("{:?}", self)
+		crate::view::dbg_string(self)
 	}
 	fn is_poisoned(&self) -> Option<bool> {
 		Some(Poisonable::is_poisoned(self))
@@ -336,7 +336,7 @@ macro_rules! impl_poison_sh {
 				}
 			}
 			fn fmt_debug(&self) -> String {
-				format!("{:?}", self)
+				crate::view::dbg_string(self)
 			}
 			fn is_poisoned(&self) -> Option<bool> {
 				Some(Poisonable::is_poisoned(self))
